@@ -21,7 +21,7 @@ P128 = 2**128 - 159
 class Fld:
     """A field in three guises: mpyc class, oracle OField, Lean driver selection line (or None)."""
 
-    def __init__(self, p, d=1, lean_tables=True):
+    def __init__(self, p, d=1, lean_tables=True, modulus=None):
         self.p, self.d = p, d
         if d == 1:
             self.field = finfields.GF(p)
@@ -31,10 +31,15 @@ class Fld:
             self.modulus_int = None
         else:
             mod = finfields.find_irreducible(p, d)
+            if modulus is not None and int(modulus) != int(mod):   # a second field of the same order
+                from mpyc import gfpx as _gfpx
+                mod = _gfpx.GFpX(p)(int(modulus))
+                assert mod.degree() == d and _gfpx.GFpX(p).is_irreducible(mod)
+                self.alt = True
             self.field = finfields.GF(mod)
             self.modulus_int = int(mod)
             self.of = orc.OField(p, self.modulus_int)
-            self.name = f'GF({p}^{d})'
+            self.name = f'GF({p}^{d})' + (f' mod {int(mod)}' if getattr(self, 'alt', False) else '')
             if lean_tables and self.of.q <= 32:
                 a, m = self.of.tables()
                 self.lean = f'field T {self.of.q} ' + ','.join(map(str, a)) + ' ' + ','.join(map(str, m))
@@ -48,7 +53,7 @@ class Fld:
 
     @staticmethod
     def from_desc(dsc):
-        return Fld(int(dsc['p']), int(dsc['d']))
+        return Fld(int(dsc['p']), int(dsc['d']), modulus=dsc.get('modulus') if int(dsc['d']) > 1 else None)
 
     def canon(self, y):
         """integer encoding of the field element denoted by y (int, gfpx polynomial or field element)"""
